@@ -1,6 +1,5 @@
 SPECIFICATION Spec
-CONSTANTS MaxBr = 3 MaxN = 5 MaxRuns = 1
-  Kinds <- KindsSmall
-  BufSizes <- BufThorough
+CONSTANTS MaxRuns = 1
+  Scenarios <- ScThoroughExport
 INVARIANT Emitted
 CHECK_DEADLOCK FALSE
